@@ -32,9 +32,10 @@ BTYPE = {"nosv": (17, "nosv-breakdown", 11, 13, 16), "nanos6": (41, "nanos6-brea
 
 
 def gen(rng, tier, idx):
-    if idx % 40 == 39:
+    every = 40 if tier == "quick" else 400
+    if idx % every == every - 1:
         rs = rng.derive("sweep")
-        if (idx // 40) % 2 == 0:
+        if (idx // every) % 2 == 0:
             return {"kind": "sort-replace", "maxn": 5 if tier == "quick" else 7, "maxv": 4}
         return {"kind": "sort-bay", "seed": rs.u64() >> 1, "n": rs.choice([1, 2, 3, 5, 8]), "steps": 3000 if tier == "quick" else 50000,
                 "maxv": rs.choice([1, 2, 4, 1000])}
